@@ -277,3 +277,37 @@ func runC13LookupsFirst(c *Ctx, ob, prop string) {
 	c.Floor(ob, "MPT lookup-miss returns of the forward operations", n, 2)
 	_ = prop
 }
+
+// runC13CommitClearsVirtual (O18): a victim whose eviction has really been sent is no longer a what-if: commitEvict
+// clears its IsVirtualStatus. While the flag stays set, ShouldAllocate(pipeline-only) holds for the pod and a later
+// scenario of the same cycle re-places ("nominates") a pod that is being deleted.
+func runC13CommitClearsVirtual(c *Ctx) {
+	f := c.Anchor("O18", pkgFramework, "Statement", "commitEvict")
+	if f == nil {
+		return
+	}
+	clears := func(in ssa.Instruction) bool {
+		st, ok := in.(*ssa.Store)
+		if !ok || termOf(st.Addr).lastField() != "IsVirtualStatus" {
+			return false
+		}
+		k, isC := st.Val.(*ssa.Const)
+		return isC && k.Value != nil && k.Value.String() == "false"
+	}
+	n := 0
+	for _, b := range f.Blocks {
+		ret, ok := b.Instrs[len(b.Instrs)-1].(*ssa.Return)
+		if !ok {
+			continue
+		}
+		if k, isC := unspill(ret, 0).(*ssa.Const); !isC || !k.IsNil() {
+			continue
+		}
+		n++
+		this := ret
+		_, path, found := reachAvoiding([]cfgPos{entryPos(f)}, func(x ssa.Instruction) bool { return x == ssa.Instruction(this) }, clears, nil)
+		c.Check(!found, "O18", "MPT", fmt.Sprintf("%s: a committed eviction clears the pod's virtual flag (success return at block %d)", funcKey(f), b.Index), instrPos(ret), "IsVirtualStatus = false on every successful path",
+			"commitEvict can report success without clearing IsVirtualStatus ("+pathStr(path)+"): the evicted pod still counts as 'virtually evicted', a later scenario of the cycle nominates it on another node, and the pod is evicted and nominated in one cycle")
+	}
+	c.Floor("O18", "MPT success returns of commitEvict", n, 1)
+}
